@@ -23,7 +23,7 @@ ASSUMPTIONS = [
 ]
 SIGNATURES = ()
 
-METRICS = ['a', 'b', '', 'c', 'd']      # '' is a legal (and falsy) metric name
+METRICS = ['a', 'b', '', 'c', 'd;env=prod']      # '' is a legal (and falsy) metric name; a tagged series goes through the tag queue
 
 
 @st.composite
